@@ -163,7 +163,7 @@ theorem step2_copy (run : ProbeRunner) {s : St} {fl : List Nat} (H : HInv2 s fl)
     obtain ⟨en, hf, hm⟩ := H.base.find_of_alive hi ha
     obtain ⟨_, _, h2, hnf, _, _⟩ := H.base.live_facts hm
     obtain ⟨w', hop, post⟩ := opCopyEntity_rel_spec run H.base.tinv H.base.unlocked H.base.noObs h2
-      hnf ha (by omega)
+      hnf ha (H.base.issued_in hi) (by omega)
     rw [hop]
     simp only [hf]
     have ok := H.base.ok e en hm
